@@ -252,6 +252,7 @@ pub mod harness {
 
 def build(ctx):
     C = ctx
+    C.helper_rewrites = [dict(rule='X5', pattern='anyhow::Error', repl='Error'), dict(rule='X5', pattern=r"\bCertificateDer<'\w+>", repl='CertificateDer', regex=True)] if True else [dict(rule='X5', pattern='anyhow::Error', repl='Error')]
     t = PRELUDE
     t += P.peer_types(C).replace('#[derive(Copy, Clone, Hash, PartialEq, Eq, PartialOrd, Ord)]\npub struct PeerId', '#[derive(Copy, Clone, Hash, PartialEq, Eq, PartialOrd, Ord, Debug)]\npub struct PeerId')
     t += 'impl Connection {\n'
